@@ -447,10 +447,11 @@ class MetaDataReplace(MosFile):
         """
         for source in self.base_tag:
             target, target_index = self._find_target(ro, source)
+            new_node = copy.deepcopy(source)
             if target is None:
-                insert_node(parent=ro.base_tag, node=source, index=len(ro.base_tag))
+                insert_node(parent=ro.base_tag, node=new_node, index=len(ro.base_tag))
             else:
-                replace_node(parent=ro.base_tag, old_node=target, new_node=source, index=target_index)
+                replace_node(parent=ro.base_tag, old_node=target, new_node=new_node, index=target_index)
         return ro
 
     @staticmethod
@@ -516,7 +517,7 @@ class StoryAppend(MosFile):
         Merge into the :class:`RunningOrder` object provided.
         """
         for story in self.stories:
-            append_node(ro.base_tag, story.xml)
+            append_node(ro.base_tag, copy.deepcopy(story.xml))
         return ro
 
     def inspect(self):
@@ -710,7 +711,7 @@ class StoryInsert(MosFile):
                 logger.warning(msg)
                 warnings.warn(msg, DuplicateStoryWarning)
                 continue
-            insert_node(parent=ro.base_tag, node=new_story.xml, index=story_index)
+            insert_node(parent=ro.base_tag, node=copy.deepcopy(new_story.xml), index=story_index)
             story_index += 1
         return ro
 
@@ -794,7 +795,7 @@ class ItemInsert(MosFile):
                     f"{self.__class__.__name__} error in {self.message_id} - target item not found"
                 )
         for i, item in enumerate(self.items, start=item_index):
-            insert_node(parent=story, node=item.xml, index=i)
+            insert_node(parent=story, node=copy.deepcopy(item.xml), index=i)
         return ro
 
     def inspect(self):
@@ -1052,7 +1053,7 @@ class StoryReplace(MosFile):
             )
         remove_node(parent=ro.base_tag, node=story)
         for i, new_story in enumerate(self.stories, start=story_index):
-            insert_node(parent=ro.base_tag, node=new_story.xml, index=i)
+            insert_node(parent=ro.base_tag, node=copy.deepcopy(new_story.xml), index=i)
         return ro
 
     def inspect(self):
@@ -1131,7 +1132,7 @@ class ItemReplace(MosFile):
 
         remove_node(parent=story, node=item)
         for i, item in enumerate(self.items, start=item_index):
-            insert_node(parent=story, node=item.xml, index=i)
+            insert_node(parent=story, node=copy.deepcopy(item.xml), index=i)
         return ro
 
     def inspect(self):
@@ -1260,7 +1261,7 @@ class RunningOrderEnd(MosFile):
         ``roDelete`` message to the ``roCreate`` tag in the running order.
         """
         mosromgrmeta = SubElement(ro.xml, 'mosromgrmeta')
-        mosromgrmeta.append(self.base_tag)
+        mosromgrmeta.append(copy.deepcopy(self.base_tag))
         return ro
 
     def inspect(self):
@@ -1366,7 +1367,7 @@ class EAStoryReplace(ElementAction):
             )
         remove_node(parent=ro.base_tag, node=story)
         for i, new_story in enumerate(self.stories, start=story_index):
-            insert_node(parent=ro.base_tag, node=new_story.xml, index=i)
+            insert_node(parent=ro.base_tag, node=copy.deepcopy(new_story.xml), index=i)
         return ro
 
     def inspect(self):
@@ -1437,7 +1438,7 @@ class EAItemReplace(ElementAction):
             )
         remove_node(parent=story, node=item)
         for i, new_item in enumerate(self.items, start=item_index):
-            insert_node(parent=story, node=new_item.xml, index=i)
+            insert_node(parent=story, node=copy.deepcopy(new_item.xml), index=i)
         return ro
 
     def inspect(self):
@@ -1629,7 +1630,7 @@ class EAStoryInsert(ElementAction):
                 logger.warning(msg)
                 warnings.warn(msg, DuplicateStoryWarning)
             else:
-                insert_node(parent=ro.base_tag, node=new_story.xml, index=story_index)
+                insert_node(parent=ro.base_tag, node=copy.deepcopy(new_story.xml), index=story_index)
                 story_index += 1
         return ro
 
@@ -1706,7 +1707,7 @@ class EAItemInsert(ElementAction):
                     f"{self.__class__.__name__} error in {self.message_id} - item not found"
                 )
         for i, new_item in enumerate(self.items, start=item_index):
-            insert_node(parent=story, node=new_item.xml, index=i)
+            insert_node(parent=story, node=copy.deepcopy(new_item.xml), index=i)
         return ro
 
     def inspect(self):
